@@ -52,6 +52,7 @@ type c06In struct {
 	Ended   []string       `json:"ended,omitempty"` // ids of SendIQ requests whose context has ended (Err() != nil) while their entry is still registered (the clean-up goroutine has not run: Done() never fires)
 	Pkt     c06Pkt         `json:"pkt"`
 	Client  *c06Client     `json:"client,omitempty"`
+	Hist    *c06Hist       `json:"hist,omitempty"`  // a history: routes registered after dispatching has begun (c06hist.go); Routes is the initial table
 	Share   bool           `json:"share,omitempty"` // the caller passes the arguments of every StanzaType / IQNamespaces call through ONE slice it re-uses (f(buf...)) and overwrites when the table is built
 }
 
@@ -67,7 +68,7 @@ func (c06) Workers() int  { return 8 }
 // down (a fatal error no recover can catch) is still named by the check.
 func (c06) Journal() bool { return true }
 func (c06) Rule() string {
-	return "random route tables (0-6 routes x 0-3 matchers among Packet/StanzaType/IQNamespaces, 1-3 arguments each, catch-all routes at random positions, duplicated and overlapping routes, arguments in mixed case, in one case in four handed to the builders through ONE slice the caller re-uses for every StanzaType / IQNamespaces call and overwrites once the table is built (a builder must neither modify nor retain it); mostly ASCII, the domain of the model's lower-casing, plus names that strings.ToLower folds onto ASCII ones or onto each other - U+0130 (dotted capital I) in Packet('\u0130Q'), U+017F (long s) in 'me\u017f\u017fage', U+212A (Kelvin sign), '\u00c9' against the type '\u00e9' - for which the model is handed the argument as strings.ToLower returns it) x one random packet (message/presence with assorted types incl. empty, *IQ of type get/set/result/error/other with payload nil / built by the library builders / zero-valued / custom namespace / parsed from XML (registered payload types, and types unknown to the registry such as ping / vCard / a mixed-case application namespace, which land in the generic Any node), with or without a generic Any node, and 10 kinds of non-stanza packets incl. SMAnswer - routed like the others for a Sender that is not a *Client; in one case in twelve the Sender is a real *Client on an established session (stream management on or off, 0-4 stanzas sent and held, connection working or cut so that every write of the retransmission fails) and the packet an <a h/> with h below / equal to / beyond the number held, or any other packet: whatever the router does with the acknowledgement first (C10), the packet is still dispatched to the first accepting route exactly once), 0-2 pending IQ-result ids (clashing with the ids of requests as well as of responses), and in one case in five 1-2 ids of requests that have ENDED (context cancelled, entry still in IQResultRoutes because the clean-up goroutine is held back: a context whose Err() is non-nil and whose Done() never fires) - a response carrying such an id is a received packet like any other: first matching route exactly once, delivered to nobody, stale entry gone; a live pending request still takes its response and no handler runs; namespace arguments aim at the payload namespace verbatim or in another letter case; corpus: an unmatched get whose generic payload is nested 400000 levels (generated from the depth); the recording Sender serialises what it is given, as Client.Send / Component.Send do; distinct = distinct (matcher kinds and per-route verdict, packet class, pending hit); non-trivial = at least 2 routes and either a route other than the first is selected or nothing matches an IQ get/set"
+	return "random route tables (0-6 routes x 0-3 matchers among Packet/StanzaType/IQNamespaces, 1-3 arguments each, catch-all routes at random positions, duplicated and overlapping routes, arguments in mixed case, in one case in four handed to the builders through ONE slice the caller re-uses for every StanzaType / IQNamespaces call and overwrites once the table is built (a builder must neither modify nor retain it); mostly ASCII, the domain of the model's lower-casing, plus names that strings.ToLower folds onto ASCII ones or onto each other - U+0130 (dotted capital I) in Packet('\u0130Q'), U+017F (long s) in 'me\u017f\u017fage', U+212A (Kelvin sign), '\u00c9' against the type '\u00e9' - for which the model is handed the argument as strings.ToLower returns it) x one random packet (message/presence with assorted types incl. empty, *IQ of type get/set/result/error/other with payload nil / built by the library builders / zero-valued / custom namespace / parsed from XML (registered payload types, and types unknown to the registry such as ping / vCard / a mixed-case application namespace, which land in the generic Any node), with or without a generic Any node, and 10 kinds of non-stanza packets incl. SMAnswer - routed like the others for a Sender that is not a *Client; in one case in twelve the Sender is a real *Client on an established session (stream management on or off, 0-4 stanzas sent and held, connection working or cut so that every write of the retransmission fails) and the packet an <a h/> with h below / equal to / beyond the number held, or any other packet: whatever the router does with the acknowledgement first (C10), the packet is still dispatched to the first accepting route exactly once), 0-2 pending IQ-result ids (clashing with the ids of requests as well as of responses), and in one case in five 1-2 ids of requests that have ENDED (context cancelled, entry still in IQResultRoutes because the clean-up goroutine is held back: a context whose Err() is non-nil and whose Done() never fires) - a response carrying such an id is a received packet like any other: first matching route exactly once, delivered to nobody, stale entry gone; a live pending request still takes its response and no handler runs; namespace arguments aim at the payload namespace verbatim or in another letter case; corpus: an unmatched get whose generic payload is nested 400000 levels (generated from the depth); the recording Sender serialises what it is given, as Client.Send / Component.Send do; HISTORIES in which the route table grows while the router is in use (6 fixed + 400 random per quick run): an initial table of 0-2 routes and 2-5 packets, each dispatched on a goroutine of its own as Client.recv does, where the handler that runs registers 0-2 further routes itself (re-entrant NewRoute().Packet/StanzaType/IQNamespaces().HandlerFunc or Router.HandleFunc), or stays running while another goroutine registers 0-2 routes and the next packet is dispatched (it is released when that dispatch has returned), plus routes registered between dispatches; new routes aim at the packets still to come (the same packet is sent again after the registration one time in four); every dispatch and registration under a 3 s deadline (not returning = blocked); expected = first-match on the table as it is when each dispatch begins (a route registered during packet k is at the end of the table packet k+1 sees), every packet handled exactly once, every unhandled IQ get/set answered exactly once; distinct = distinct (matcher kinds and per-route verdict, packet class, pending hit); non-trivial = at least 2 routes and either a route other than the first is selected or nothing matches an IQ get/set"
 }
 
 // ---- packets -------------------------------------------------------------------------
@@ -289,6 +290,9 @@ func (c06) Decode(raw json.RawMessage) (interface{}, error) {
 
 func (c06) Run(inp interface{}) Sx {
 	in := inp.(c06In)
+	if in.Hist != nil {
+		return c06RunHist(in)
+	}
 	pkt := c06Build(in.Pkt)
 	want := c06FactsOf(pkt) // read before routing: the router may or may not rewrite the packet
 	sender := &c06Sender{}
@@ -473,6 +477,9 @@ func c06Strs(xs []string) Sx {
 
 func (c06) Input(inp interface{}) Sx {
 	in := inp.(c06In)
+	if in.Hist != nil {
+		return c06HistInput(in)
+	}
 	routes := make([]Sx, len(in.Routes))
 	for i, ms := range in.Routes {
 		items := make([]Sx, len(ms))
@@ -598,6 +605,9 @@ func c06Expect(in c06In, f c06Facts) c06Want {
 }
 
 func (c06) Oracle(inp interface{}, obs Sx) (string, string) {
+	if in := inp.(c06In); in.Hist != nil {
+		return c06HistOracle(in, obs)
+	}
 	if msg, sig := c06Judge(inp, obs); msg != "" {
 		return msg, sig
 	}
@@ -715,6 +725,9 @@ func c06Min(a, b int) int {
 
 func (c06) Key(inp interface{}) (string, bool) {
 	in := inp.(c06In)
+	if in.Hist != nil {
+		return c06HistKey(in)
+	}
 	f := c06FactsOf(c06Build(in.Pkt))
 	w := c06Expect(in, f)
 	var b strings.Builder
@@ -986,6 +999,16 @@ func (c06) Gen(r *rand.Rand, tier string) []interface{} {
 		c06In{Routes: [][]c06Matcher{{pm("packet", "iq")}}, Ended: []string{"1"}, Pkt: get},                                                                   // a request with that id: routed, the stale entry stays
 		c06In{Routes: [][]c06Matcher{{pm("packet", "iq")}}, Ended: []string{"abc"}, Pending: []string{"1"}, Pkt: c06Pkt{Kind: "iq", Type: "result", Id: "1"}}, // the live request still takes its response
 		c06In{Routes: [][]c06Matcher{{}}, Ended: []string{"1"}, Pkt: c06Pkt{Kind: "message", Id: "1"}},
+	}
+	// histories: routes registered after dispatching has begun (from inside a handler, from another goroutine while a
+	// handler is still running, between dispatches), every call under a deadline
+	out = append(out, c06HistFixed()...)
+	nh := 400
+	if tier == "thorough" {
+		nh = 4000
+	}
+	for i := 0; i < nh; i++ {
+		out = append(out, c06GenHist(r))
 	}
 	for i := 0; i < n; i++ {
 		p := c06GenPkt(r)
